@@ -168,7 +168,7 @@ pub fn dup_stream(rng: &mut Rng, n: u64, id: &mut u64, out: &mut Out) {
 
 pub fn generate(rng: &mut Rng, thorough: bool, out: &mut Out) {
     let g = Gen { values: true, huge_ints: false };
-    let n = if thorough { 1500 } else { 150 };
+    let n = if thorough { 1500 } else { 400 };
     let mut id = 0u64;
     for i in 0..n {
         id += 1;
